@@ -29,4 +29,12 @@ CHECKS["C16"] = (
     "against the declarative contract; each case is replayed on the real constructors (NumPy and Dask), setters, like(), "
     "pickle/cloudpickle and the Dask helpers, and the contract is evaluated on every object produced by generated pipelines.",
     TB, "DESIGN.md §4 C16")
+CHECKS["C10"] = (
+    "TLA+ spec Concat.tla (split -> mask start times -> perturb one piece -> concatenate transcribed check by check) "
+    "model-checked by TLC for identity, associativity and refusal; every generated case replayed on real signals",
+    "TLC explores every cut set (incl. repeated/end cuts), every pattern of missing start times, every single "
+    "perturbation (one-sample gap/overlap, swap, rate x2 and x(1+2^-10), class, chan_bw, labels +-1 channel, start time on "
+    "the non-time axis) and every grouping for <=3 (4 thorough) pieces along time and frequency; each generated case is "
+    "replayed on the real classes at 1 mHz..2 GHz and must reproduce the original bit for bit or raise.",
+    TB, "DESIGN.md §4 C10")
 NA = {}
